@@ -354,8 +354,10 @@ def register_effects(prog):
 # instructions whose only effect is a result in A
 BINARY_RESULT = ("Less", "LessOrEqual", "Equal", "GreaterOrEqual", "Greater", "NotEqual",
                  "Plus", "Minus", "Multiply", "Divide", "Modulo", "And", "Or")
-# expression evaluation uses A (result) and B (second operand of a binary operator)
-EXPR_CLOBBERS = {"a", "b"}
+# expression evaluation uses A (result) and B (second operand of a binary operator); it can also call
+# a user FUNCTION, whose own FOR loops set C and D in the caller's register frame (a call pushes no
+# frame): an expression may overwrite every register
+EXPR_CLOBBERS = {"a", "b", "c", "d"}
 ALL_REGS = {"a", "b", "c", "d"}
 
 
@@ -375,11 +377,14 @@ def r8_register_liveness(ctx, rule="C15.R8"):
     import json
     import os
     from ..core import VERIF
-    exc = json.load(open(os.path.join(VERIF, "tables", "register_clobber_exceptions.json")))["a_only_generators"]
+    exc_table = json.load(open(os.path.join(VERIF, "tables", "register_clobber_exceptions.json")))
+    exc = exc_table["a_only_generators"]
+    exc_none = exc_table.get("no_register_generators", {})
     gens = {f.id: f for f in emit.generator_fns(prog)}
     summaries = {}
     a_firsts = {}
     pendings = {}
+    entry_reads = {}
 
     def transfer(e, depth_holder):
         """(reads, {reg: status}) of one event; status 'set' / 'clobbered'"""
@@ -392,7 +397,8 @@ def r8_register_liveness(ctx, rule="C15.R8"):
         if e.kind in ("BLOCK", "STMT"):
             return set(), ({} if depth_holder[0] > 0 else {r: "clobbered" for r in ALL_REGS})
         if e.kind == "gen":
-            return set(), dict(summary(e.callee))
+            eff = dict(summary(e.callee))
+            return set(entry_reads.get(e.callee.id, ())), eff
         return set(), {}
 
     def flow(f, on_read=None, on_dead=None):
@@ -425,6 +431,10 @@ def r8_register_liveness(ctx, rule="C15.R8"):
                 st = states[i]
                 e = seq[i]
                 reads, effect = transfer(e, [depth[i]])
+                for r in reads:
+                    if r not in st:
+                        # the caller's value is read: part of the summary of f
+                        entry_reads.setdefault(f.id, set()).add(r)
                 if on_read is not None:
                     for r in sorted(reads):
                         if "clobbered" in st.get(r, ()):
@@ -510,6 +520,11 @@ def r8_register_liveness(ctx, rule="C15.R8"):
         if f.name in exc:
             summaries[f.id] = {"a": "set"}
             a_firsts[f.id] = "write"
+            pendings[f.id] = None
+            return summaries[f.id]
+        if f.name in exc_none:
+            summaries[f.id] = {}
+            a_firsts[f.id] = "read"
             pendings[f.id] = None
             return summaries[f.id]
         if f.id in _seen:
